@@ -34,8 +34,8 @@ ASSUMPTIONS = [
     "scope: triggers with one expression and no any-change names (the statement is silent on how the holds interact with "
     "any-change forms); state_hold / state_hold_false are None or non-negative reals",
 ]
-NOT_DECIDED = ["task.wait_until's copy of the hold logic (TrigTime.wait_until / WaitUntilDecoratorManager): the step proofs and the bounded "
-               "histories cover decorators; wait_until's initial check and single-shot hold are not under contract",
+NOT_DECIDED = ["task.wait_until's copy of the hold logic (TrigTime.wait_until / the decorator subsystem in wait_until mode) is not under "
+               "contract: it is covered by the bounded whole-history differential only (bounded.wait_until)",
                "composition of the steps into whole histories is by the loop invariant 'loop state = abstraction of the automaton state'; "
                "whole histories are additionally enumerated only up to the stated bound (bounded stand-in)",
                "float rounding at the deadlines (reals)"]
@@ -416,8 +416,20 @@ def bounded_histories(sub, depth, shard, nshards):
     return run
 
 
+def bounded_wait_until(sub, depth, shard, nshards):
+    def run(seed):
+        from replay.native import run_native
+        return run_native("c05_wait_until_bounded", {"subsystem": sub, "depth": depth, "shard": shard, "nshards": nshards}, timeout=1500)
+    return run
+
+
 def harnesses():
     hs = []
+    units_w = {"new": [(DS_PY, "StateTriggerDecorator._cycle"), (f"{PKG}/decorator.py", "DecoratorRegistry.wait_until")], "legacy": [(T_PY, "TrigTime.wait_until")]}
+    for sub in ("new", "legacy"):
+        hs.append(Harness(f"bounded.wait_until[{sub};depth<=2]", bounded_wait_until(sub, 2, 0, 1), units=units_w[sub], kind="bounded"))
+        for k in range(4):
+            hs.append(Harness(f"bounded.wait_until[{sub};depth<=3;shard={k + 1}/4]", bounded_wait_until(sub, 3, k, 4), units=units_w[sub], kind="bounded", tier="thorough"))
     units_b = {"new": [(DS_PY, "StateTriggerDecorator._cycle")], "legacy": [(T_PY, "TrigInfo.trigger_watch")]}
     for sub in ("new", "legacy"):
         hs.append(Harness(f"bounded.histories[{sub};depth<=2]", bounded_histories(sub, 2, 0, 1), units=units_b[sub], kind="bounded"))
